@@ -46,7 +46,7 @@ private def Inv (st : Store K) (ys : List K) : Prop :=
     st.m2 = (ys.map (fun x => x * x)).sum - st.cnt * (st.mean * st.mean)
 
 private theorem addData_inv (st : Store K) (ys b : List K) (h : Inv st ys) (hb : b ≠ []) :
-    Inv (addData st b) (ys ++ b) := by
+    Inv (addDataOld st b) (ys ++ b) := by
   obtain ⟨c, m, q⟩ := st
   obtain ⟨h1, h2, h3⟩ := h
   simp only at h1 h2 h3
@@ -55,7 +55,7 @@ private theorem addData_inv (st : Store K) (ys b : List K) (h : Inv st ys) (hb :
     have hpos := List.length_pos_iff.mpr hb
     have : ys.length + b.length ≠ 0 := by omega
     exact_mod_cast this
-  simp only [Inv, addData, sum_map_sub_const, sum_zip_sub, List.length_append, List.sum_append,
+  simp only [Inv, addDataOld, sum_map_sub_const, sum_zip_sub, List.length_append, List.sum_append,
     List.map_append, Nat.cast_add]
   refine ⟨trivial, ?_, ?_⟩
   · rw [← h2]; field_simp; ring
@@ -67,13 +67,13 @@ private theorem addData_inv (st : Store K) (ys b : List K) (h : Inv st ys) (hb :
     rw [hS]; ring
 
 private theorem foldl_inv (parts : List (List K)) (hne : ∀ p ∈ parts, p ≠ []) :
-    ∀ (st : Store K) (ys : List K), Inv st ys → Inv (parts.foldl addData st) (ys ++ parts.flatten) := by
+    ∀ (st : Store K) (ys : List K), Inv st ys → Inv (parts.foldl addDataOld st) (ys ++ parts.flatten) := by
   induction parts with
   | nil => intro st ys h; simpa using h
   | cons b parts ih =>
     intro st ys h
     have hb : b ≠ [] := hne b (by simp)
-    have := ih (fun p hp => hne p (by simp [hp])) (addData st b) (ys ++ b) (addData_inv st ys b h hb)
+    have := ih (fun p hp => hne p (by simp [hp])) (addDataOld st b) (ys ++ b) (addData_inv st ys b h hb)
     simpa [List.foldl_cons, List.flatten_cons, List.append_assoc] using this
 
 private theorem inv_final (st : Store K) (xs : List K) (h : Inv st xs) :
@@ -95,9 +95,9 @@ private theorem inv_final (st : Store K) (xs : List K) (h : Inv st xs) :
       have hm : st.mean = xs.sum / (xs.length : K) := by rw [← h2, h1]; field_simp
       rw [h3, sum_sq_dev, ← hm, ← h2, h1]; ring
 
-theorem welford_partition_invariant' (parts : List (List K)) (hne : ∀ p ∈ parts, p ≠ []) :
+theorem welford_partition_invariant_old' (parts : List (List K)) (hne : ∀ p ∈ parts, p ≠ []) :
     let xs := parts.flatten
-    let st := parts.foldl addData Store.init
+    let st := parts.foldl addDataOld Store.init
     st.cnt = (xs.length : K) ∧
     (xs ≠ [] → st.mean = xs.sum / (xs.length : K)) ∧
     st.m2 = (xs.map (fun x => (x - xs.sum / (xs.length : K)) ^ 2)).sum := by
@@ -106,30 +106,95 @@ theorem welford_partition_invariant' (parts : List (List K)) (hne : ∀ p ∈ pa
   simp only [List.nil_append] at h
   exact inv_final _ _ h
 
-theorem welford_same_for_all_partitions' (p₁ p₂ : List (List K)) (h₁ : ∀ p ∈ p₁, p ≠ [])
+theorem welford_same_for_all_partitions_old' (p₁ p₂ : List (List K)) (h₁ : ∀ p ∈ p₁, p ≠ [])
     (h₂ : ∀ p ∈ p₂, p ≠ []) (hflat : p₁.flatten = p₂.flatten) (hne : p₁.flatten ≠ []) :
-    p₁.foldl addData Store.init = p₂.foldl addData Store.init := by
-  obtain ⟨a1, a2, a3⟩ := welford_partition_invariant' p₁ h₁
-  obtain ⟨b1, b2, b3⟩ := welford_partition_invariant' p₂ h₂
+    p₁.foldl addDataOld Store.init = p₂.foldl addDataOld Store.init := by
+  obtain ⟨a1, a2, a3⟩ := welford_partition_invariant_old' p₁ h₁
+  obtain ⟨b1, b2, b3⟩ := welford_partition_invariant_old' p₂ h₂
   have a2' := a2 hne
   have b2' := b2 (hflat ▸ hne)
   rw [← hflat] at b1 b2' b3
-  generalize p₁.foldl addData Store.init = s1 at *
-  generalize p₂.foldl addData Store.init = s2 at *
+  generalize p₁.foldl addDataOld Store.init = s1 at *
+  generalize p₂.foldl addDataOld Store.init = s2 at *
   cases s1; cases s2
   simp only [Store.mk.injEq]
   simp only at a1 a2' a3 b1 b2' b3
   exact ⟨a1.trans b1.symm, a2'.trans b2'.symm, a3.trans b3.symm⟩
+
+theorem scale_is_population_std_old' (parts : List (List K)) (hne : ∀ p ∈ parts, p ≠ [])
+    (hdata : parts.flatten ≠ []) :
+    let xs := parts.flatten
+    scaleSq (parts.foldl addDataOld Store.init) =
+      (xs.map (fun x => (x - xs.sum / (xs.length : K)) ^ 2)).sum / (xs.length : K) := by
+  intro xs
+  have _ := hdata
+  obtain ⟨a1, _, a3⟩ := welford_partition_invariant_old' parts hne
+  simp only [scaleSq, a1, a3, xs]
+
+/-! ### the code's current merge (`addData`, /repo 734a2d7) equals the old update on every reachable store -/
+
+private theorem sum_sq_dev_mul (l : List K) (c : K) :
+    (l.map (fun x => (x - c) * (x - c))).sum
+      = (l.map (fun x => x * x)).sum - 2 * c * l.sum + (l.length : K) * (c * c) := by
+  induction l with
+  | nil => simp
+  | cons x l ih =>
+    simp only [List.map_cons, List.sum_cons, List.length_cons, ih]; push_cast; ring
+
+theorem addData_eq_old (st : Store K) (batch : List K) (hb : batch ≠ []) (c : Nat) (hc : st.cnt = (c : K)) :
+    addData st batch = addDataOld st batch := by
+  obtain ⟨c0, m, q⟩ := st
+  simp only at hc
+  subst hc
+  have hpos := List.length_pos_iff.mpr hb
+  have hnb : (batch.length : K) ≠ 0 := by
+    exact_mod_cast (by omega : batch.length ≠ 0)
+  have hN : (c : K) + (batch.length : K) ≠ 0 := by
+    exact_mod_cast (by omega : c + batch.length ≠ 0)
+  simp only [addData, addDataOld, sum_map_sub_const, sum_zip_sub, sum_sq_dev_mul, Store.mk.injEq]
+  refine ⟨trivial, ?_, ?_⟩
+  · field_simp
+  · field_simp; ring
+
+private theorem foldl_addData_eq_old (parts : List (List K)) (hne : ∀ p ∈ parts, p ≠ []) :
+    ∀ (st : Store K) (c : Nat), st.cnt = (c : K) →
+      parts.foldl addData st = parts.foldl addDataOld st := by
+  induction parts with
+  | nil => intro st c _; rfl
+  | cons b parts ih =>
+    intro st c hc
+    have hb : b ≠ [] := hne b (by simp)
+    simp only [List.foldl_cons]
+    rw [addData_eq_old st b hb c hc]
+    refine ih (fun p hp => hne p (by simp [hp])) (addDataOld st b) (c + b.length) ?_
+    simp only [addDataOld, hc, Nat.cast_add]
+
+private theorem foldl_addData_init_eq_old (parts : List (List K)) (hne : ∀ p ∈ parts, p ≠ []) :
+    parts.foldl addData (Store.init : Store K) = parts.foldl addDataOld Store.init :=
+  foldl_addData_eq_old parts hne Store.init 0 (by simp [Store.init])
+
+theorem welford_partition_invariant' (parts : List (List K)) (hne : ∀ p ∈ parts, p ≠ []) :
+    let xs := parts.flatten
+    let st := parts.foldl addData Store.init
+    st.cnt = (xs.length : K) ∧
+    (xs ≠ [] → st.mean = xs.sum / (xs.length : K)) ∧
+    st.m2 = (xs.map (fun x => (x - xs.sum / (xs.length : K)) ^ 2)).sum := by
+  rw [foldl_addData_init_eq_old parts hne]
+  exact welford_partition_invariant_old' parts hne
+
+theorem welford_same_for_all_partitions' (p₁ p₂ : List (List K)) (h₁ : ∀ p ∈ p₁, p ≠ [])
+    (h₂ : ∀ p ∈ p₂, p ≠ []) (hflat : p₁.flatten = p₂.flatten) (hne : p₁.flatten ≠ []) :
+    p₁.foldl addData Store.init = p₂.foldl addData Store.init := by
+  rw [foldl_addData_init_eq_old p₁ h₁, foldl_addData_init_eq_old p₂ h₂]
+  exact welford_same_for_all_partitions_old' p₁ p₂ h₁ h₂ hflat hne
 
 theorem scale_is_population_std' (parts : List (List K)) (hne : ∀ p ∈ parts, p ≠ [])
     (hdata : parts.flatten ≠ []) :
     let xs := parts.flatten
     scaleSq (parts.foldl addData Store.init) =
       (xs.map (fun x => (x - xs.sum / (xs.length : K)) ^ 2)).sum / (xs.length : K) := by
-  intro xs
-  have _ := hdata
-  obtain ⟨a1, _, a3⟩ := welford_partition_invariant' parts hne
-  simp only [scaleSq, a1, a3, xs]
+  rw [foldl_addData_init_eq_old parts hne]
+  exact scale_is_population_std_old' parts hne hdata
 
 theorem newest_is_scaled_euclid' (scale u v : List K) :
     weightedEuclidSq scale u v = scaledEuclidSq scale u v := by
